@@ -238,9 +238,21 @@ def extract(facts, rep):
         if not pushes:
             continue
         sgn = None
+        sign_variants = None
+        for an, ad in facts.adts.items():
+            if an.endswith('::Sign') and an.startswith('yui::'):
+                sign_variants = {int(v.get('discr', i)): v['name'] for i, v in enumerate(ad['variants'])}
         for e in p.branches():
             if sk(e.term).startswith('is_positive(&sign('):
                 sgn = 'Pos' if e.value == 'else' else 'Neg'
+            elif re.match(r'discr\(&?sign\(', sk(e.term)) and sign_variants:
+                if isinstance(e.value, int) and e.value in sign_variants:
+                    sgn = sign_variants[e.value]
+                elif e.value == 'else' and e.args is not None:
+                    rest = [v for i, v in sign_variants.items() if i not in e.args]
+                    sgn = rest[0] if len(rest) == 1 else None
+        if sgn is None:
+            raise ValueError('braid closure: the sign of the generator of a pushed code is not decided by is_positive / match on sign()')
         for e in pushes:
             T['braid'][sgn] = [corner(x) for x in strip(e.args[1])[2]]
         nxt = {}
@@ -402,9 +414,11 @@ def check_closure_gluing(facts, rep):
         if p.end == 'return':
             rets.add(dk(p.ret))
     apply = None
-    for k, cb in facts.bodies.items():
-        if k == 'yui_link::braid::Braid::closure::{closure#0}::{closure#0}':
-            apply = sorted({dk(q.ret) for q in SymEx(cb).run() if q.end == 'return'})
+    for k, cb in sorted(facts.bodies.items()):
+        if k.startswith('yui_link::braid::Braid::closure::{closure'):
+            rr = sorted({dk(q.ret) for q in SymEx(cb).run() if q.end == 'return'})
+            if rr and all(re.match(r'unwrap_or\((copied\(|cloned\()?get\(arg1\.\^conn, arg2\)\)?, arg2\)$', x) for x in rr):
+                apply = ['unwrap_or(get(arg1.^conn, arg2), arg2)']
     inst = 'Braid::closure|bottom edge at position i is identified with top edge i'
     good = zips == {('into_iter(L)', 'Range::Range{start: 0, end: arg1.strands}')} and not sorts and apply == ['unwrap_or(get(arg1.^conn, arg2), arg2)']
     if good:
@@ -425,7 +439,7 @@ def selftest(T, rep):
              ('T4', 'mirror', lambda t: t['mirror'].__setitem__('X', 'X')),
              ('T5', 'sign', lambda t: t['sign'].__setitem__(('Xm', 1), 'Neg')),
              ('T6', 'ori', lambda t: t['ori'].update({'Pos': 1, 'Neg': 0})),
-             ('T7', 'braid', lambda t: t['braid'].__setitem__('Neg', list(t['braid']['Pos'])))]
+             ('T7', 'braid', lambda t: t['braid'].__setitem__('Neg', list(t['braid'].get('Pos', []))))]
     base = Scratch()
     check_tables(copy.deepcopy(T), base)
     firing = {v[0].split('-')[0] for v in base.violations}
